@@ -113,6 +113,10 @@ var c09Values = []c09Shape{
 	{Name: "HTTPS2", Value: "NOERROR;HTTPS;1 . alpn=h2", RCode: "NOERROR", RR: "HTTPS", Val: "1 . alpn=h2"},
 	{Name: "SVCB", Value: "NOERROR;SVCB;1 svc.example.net", RCode: "NOERROR", RR: "SVCB", Val: "1 svc.example.net"},
 	{Name: "PTR", Value: "NOERROR;PTR;ptr.example.net.", RCode: "NOERROR", RR: "PTR", Val: "ptr.example.net."},
+	// Record types without a value parser: the type is kept, the value is nil.
+	{Name: "NS", Value: "NOERROR;NS;ns1.example.net", RCode: "NOERROR", RR: "NS", Val: ""},
+	{Name: "SOA", Value: "NOERROR;SOA;whatever", RCode: "NOERROR", RR: "SOA", Val: ""},
+	{Name: "NOERRORkw", Value: "NOERROR", RCode: "NOERROR", RR: "", Val: ""},
 }
 
 func c09Variant(name string, exc, imp bool) c09Shape {
@@ -161,6 +165,7 @@ func init() {
 		c09Variant("MX", false, false), c09Variant("MX", true, false),
 		c09Variant("EMPTY", true, false), c09Variant("EMPTY", true, true),
 		c09Variant("HTTPS", false, false), c09Variant("HTTPS", true, false),
+		c09Variant("NS", false, false), c09Variant("NS", true, false),
 	}
 	c09Alpha7 = []c09Shape{
 		c09Variant("A1", false, false), c09Variant("A1", true, false),
@@ -170,6 +175,9 @@ func init() {
 	}
 	for _, v := range c09Values {
 		for _, exc := range []bool{false, true} {
+			if exc && v.Name == "NOERRORkw" {
+				continue // a keyword NOERROR exception is a declared don't-care
+			}
 			for _, imp := range []bool{false, true} {
 				c09Full = append(c09Full, c09Variant(v.Name, exc, imp))
 			}
@@ -199,7 +207,7 @@ func c09Blocks(t core.Tier) []c09Block {
 	bl := []c09Block{{alpha: c09Alpha16, lo: 0, hi: 4}}
 	if t == core.Thorough {
 		bl = append(bl, c09Block{alpha: c09Alpha7, lo: 5, hi: 6})
-		bl = append(bl, c09Block{alpha: c09Alpha16, lo: 5, hi: 5})
+		bl = append(bl, c09Block{alpha: c09Alpha16[:16], lo: 5, hi: 5})
 	}
 	for i := range bl {
 		for l := bl[i].lo; l <= bl[i].hi; l++ {
@@ -407,8 +415,8 @@ func init() {
 	core.Register(&core.Prop{
 		ID:    "C09",
 		Level: "exploration",
-		Rule: "all sequences of length 0..4 over a 16-symbol alphabet of rewrite shapes (A short/full, CNAME short/full, RCODE, MX, HTTPS x important x exception, empty exceptions) " +
-			"[thorough: also length 5..6 over 7 symbols and length 5 over 16], plus PRNG-sampled sequences of length 5..12 over all 78 shape variants, each fed as fresh rule objects to DNSResult.DNSRewrites and, sampled, through DNSEngine.MatchRequest; " +
+		Rule: "all sequences of length 0..4 over an 18-symbol alphabet of rewrite shapes (A short/full, CNAME short/full, RCODE, MX, HTTPS, NS (a type without value parser) x important x exception, empty exceptions) " +
+			"[thorough: also length 5..6 over 7 symbols and length 5 over 16], plus PRNG-sampled sequences of length 5..12 over all ~90 shape variants, each fed as fresh rule objects to DNSResult.DNSRewrites and, sampled, through DNSEngine.MatchRequest; " +
 			"oracle = reference filter of DNSRewritesAll() compared as sequences of rule texts (and object identity); non-trivial = sequence with at least one exception and one rewrite; distinct by sequence",
 		Assumptions: []string{
 			"a keyword NOERROR exception parses to the empty value; it is not generated as an exception (declared don't-care)",
@@ -445,6 +453,9 @@ func init() {
 					for j := 0; j < 3+c.Rng.Intn(3); j++ {
 						v := util.Pick(c.Rng, c09Values).Name
 						for _, e := range []bool{false, true} {
+							if e && v == "NOERRORkw" {
+								continue
+							}
 							for _, i := range []bool{false, true} {
 								pool = append(pool, c09Variant(v, e, i))
 							}
